@@ -408,6 +408,12 @@ def run(ctx):
                    "of the batch, so every point after the first is computed from altered inputs",
                    fk.loc(bad_w[0].node) if bad_w else fk.loc(), derived=bad_w[0].text if bad_w else "")
     ctx.require_count("R08.7", 10)
+    # ---- R08.8 the kernels weight every bin by frequency_step * direction_step taken from the spectrum: the direction bin widths
+    # are the wrapped forward differences closed over the circle (shared with C02)
+    from .c02 import direction_rules as _dir_rules
+    with ctx.renamed({"R02.1": "R08.8", "R02.2": "R08.8", "R02.3": "R08.8"}):
+        _dir_rules(ctx)
+    ctx.require_count("R08.8", 8)
     ctx.require_count("R08.1", 12)
     ctx.require_count("R08.2", 7)
     ctx.require_count("R08.3", 14)
